@@ -1,7 +1,7 @@
 """C14 — walk reconstruction uses every edge exactly as often as the solver decided.
 
 Proof: FP/Props/C14.lean (`reconstruct_euler`, `reconstruct_zero` about FP/Model/Euler.lean; `edges_buildResidual`,
-`walk_traverses_multiplicity`, `walk_traverses_rounded_values`, `pyRound_near`, `pyRound_int` about FP/Model/WalkDecode.lean,
+`walk_traverses_multiplicity`, `walk_traverses_rounded_values`, `decodeWalkLayer_eq_walkOfValues`, `pyRound_near`, `pyRound_int` about FP/Model/WalkDecode.lean,
 FP/Model/WalkDecodeRound.lean and FP/Model/Round.lean: from the solver's values through round() to the walk).
 Tie: K1 exact-output differential of `_reconstruct_eulerian_walk` / `_build_closed_walk_from_vertex`
 (real code on a bare subclass instance) and of `_build_residual_graph_for_layer` / `get_solution_walks`
@@ -14,7 +14,9 @@ from collections import Counter
 THEOREMS = ["FP.Props.C14.reconstruct_euler", "FP.Props.C14.reconstruct_zero",
             "FP.Props.C14.pyRound_near", "FP.Props.C14.pyRound_int", "FP.Props.C14.edges_buildResidual",
             "FP.Props.C14.bal_multEdges", "FP.Props.C14.walk_traverses_multiplicity",
-            "FP.Props.C14.walk_traverses_rounded_values", "FP.Props.C14.Example.exMultST",
+            "FP.Props.C14.walk_traverses_rounded_values", "FP.Props.C14.decodeWalkLayer_eq_walkOfValues",
+            "FP.Props.C14.decodeWalkLayer_eq_walkOfMult", "FP.Props.C14.decodeWalkLayer_traverses_rounded_values",
+            "FP.Props.C14.Example.exMultST",
             "FP.pyRound_near", "FP.pyRound_int", "FP.pyRound_near_toNat", "FP.WDM.edges_buildResidual",
             "FP.WDM.edges_buildResidual_perm", "FP.WDM.walkOfMult_count", "FP.WDM.walkOfValues_count"]
 IMPORTS = ["FP.Props.C14", "FP.Proofs.EulerExample", "FP.Proofs.Round", "FP.Proofs.WalkDecodeMult"]
